@@ -14,6 +14,7 @@ pub struct Event {
 
 pub struct Collector {
     pub events: Vec<Event>,
+    pub locks: bool,
 }
 
 fn path_last2(e: &Expr) -> Option<(String, String)> {
@@ -54,7 +55,12 @@ fn chain(e: &Expr) -> Vec<String> {
 
 impl Collector {
     pub fn new() -> Self {
-        Collector { events: vec![] }
+        Collector { events: vec![], locks: false }
+    }
+    pub fn with_locks() -> Self {
+        let mut c = Collector::new();
+        c.locks = true;
+        c
     }
     fn push(&mut self, kind: &str, arg: &str) {
         self.events.push(Event { kind: kind.to_string(), arg: arg.to_string() });
@@ -96,7 +102,11 @@ impl<'ast> Visit<'ast> for Collector {
         }
         let name = m.method.to_string();
         let ch = chain(&m.receiver);
-        let root_self = ch.first().map(|s| s == "self" || s == "node").unwrap_or(false);
+        let root_self = ch.first().map(|s| s == "self" || s == "node" || (self.locks && s == "guard")).unwrap_or(false);
+        if self.locks && root_self && ((name == "node" && ch.len() == 1) || name == "lock") {
+            self.push("Lock", &name);
+            return;
+        }
         if !root_self {
             return;
         }
@@ -161,7 +171,9 @@ impl<'ast> Visit<'ast> for Collector {
         }
         if let Expr::Path(p) = &*c.func {
             let n = p.path.segments.last().unwrap().ident.to_string();
-            if n == "take_single_file" {
+            if n == "drop" && self.locks {
+                self.push("Unlock", "");
+            } else if n == "take_single_file" {
                 self.push("TakeSingle", "");
             } else if n == "error_code" {
                 self.push("LocalErr", "");
@@ -175,6 +187,12 @@ impl<'ast> Visit<'ast> for Collector {
         }
         self.push("Return", "");
     }
+}
+
+pub fn lock_events_of_block(b: &syn::Block) -> Vec<Event> {
+    let mut c = Collector::with_locks();
+    c.visit_block(b);
+    c.events
 }
 
 pub fn events_of_block(b: &syn::Block) -> Vec<Event> {
